@@ -146,6 +146,9 @@ func Convert(value any, typ reflect.Type) (any, error) { //nolint: gocyclo
 					}
 					k = reflect.ValueOf(kc)
 				}
+				if !k.Comparable() {
+					return nil, conversionError("", value, typ)
+				}
 				if item.Value == nil {
 					v = reflect.Zero(et)
 				} else {
